@@ -122,6 +122,12 @@ func wrapArr(s Sort, idx Sort, n int) Sort {
 	return s
 }
 
+// opaqueTypes are modelled as uninterpreted values with equality only (their contents are never
+// inspected by code under contract). Listed in every evidence file as an assumption.
+var opaqueTypes = map[string]bool{
+	"github.com/oklog/ulid/v2.ULID": true,
+}
+
 // shape returns the leaves of a Go type.
 func (e *Enc) shape(t types.Type) []Leaf {
 	k := typeKey(t)
@@ -129,6 +135,12 @@ func (e *Enc) shape(t types.Type) []Leaf {
 		return s
 	}
 	var out []Leaf
+	if opaqueTypes[k] {
+		// identity-only model: an uninterpreted value with equality (used for map keys / comparisons)
+		out = []Leaf{{"", IntS, nil, "opaque"}}
+		e.shapes[k] = out
+		return out
+	}
 	switch u := t.Underlying().(type) {
 	case *types.Basic:
 		out = []Leaf{{"", e.sortOfBasic(u), t, ""}}
